@@ -47,6 +47,9 @@ OF OR IN CONNECTION WITH THE SOFTWARE OR THE USE OR OTHER DEALINGS IN THE SOFTWA
 #include "SimpSMTSolver.h"
 
 #include <common/ReportUtils.h>
+#ifdef OPENSMT_VERIF_TRACE
+#include <common/VerifTrace.h>
+#endif
 
 //=================================================================================================
 // Constructor/Destructor:
@@ -281,6 +284,13 @@ bool SimpSMTSolver::strengthenClause(CRef cr, Lit l)
         updateElimHeap(var(l));
     }
 
+#ifdef OPENSMT_VERIF_TRACE
+    if (veriftrace::on()) {
+        vec<Lit> verifLits;
+        for (unsigned i = 0; i < c.size(); ++i) { verifLits.push(c[i]); }
+        veriftrace::emit("{\"e\":\"cl\",\"kind\":\"derived\",\"site\":\"strengthen\",\"lits\":" + veriftrace::litsToJson(verifLits) + "}");
+    }
+#endif
     return c.size() == 1 ? enqueue(c[0]) && propagate() == CRef_Undef : true;
 }
 
@@ -615,6 +625,9 @@ bool SimpSMTSolver::eliminateVar(Var v)
         removeClause(cls[i]);
 
     // Produce clauses in cross product:
+#ifdef OPENSMT_VERIF_TRACE
+    veriftrace::OriginScope verifOrigin("derived");
+#endif
     for (int i = 0; i < pos.size(); i++) {
         for (int j = 0; j < neg.size(); j++) {
             vec<Lit> resolvent;
